@@ -27,3 +27,4 @@ def check(ctx, rep):
     S.rule_lock_discipline(ctx, rep, 'D1')
     S.rule_D2(ctx, rep)
     S.rule_D3(ctx, rep, methods=('flush',))
+    S.rule_forwarding_impls(ctx, rep, 'F1', methods=('flush',))
